@@ -27,7 +27,7 @@ The project has this semantic property, which is supposed to hold for every inpu
   Quantifier: {p['quantifier']['text']}
   Code it lives in: {', '.join(p['anchors']['files'])}
 
-Your task: make ONE small, subtle, realistic change to the source under {wt}/src (the kind of change a maintainer might make by mistake during a refactoring or a 'harmless' clean-up) that BREAKS this property for some inputs, while:
+Your task: make ONE small, subtle, realistic change to the source under {wt}/src (the kind of change a maintainer might make by mistake during a refactoring or a 'harmless' clean-up) that BREAKS this property for some inputs. Prefer a change that needs something specific to manifest - a multi-step sequence of operations in one process, an unusual but legitimate input, a particular combination of options, or two cooperating sites that each look fine alone - rather than one that ordinary use would expose at once. The change must satisfy:
   * the package still imports, and
   * the existing test suite gives exactly the same result as before your change. Run it with:
       cd {wt} && PYTHONPATH={wt}/src /venv/bin/python -m pytest -q -p no:cacheprovider
